@@ -114,3 +114,8 @@ Definition run_neff (eng : engine) (pr : bool) (m : machine) (rec : list nat -> 
 Definition run_entry_skeleton (sk : list neff) (eng : engine) (pr : bool) (m : machine) (rec : list nat -> option event -> M)
            (l : list nat) (ev : option event) (x : nat) : M :=
   for_each (run_neff eng pr m rec l ev x) sk.
+
+(* ---- how a selected transition is dispatched (_execute_transition / _execute_transition_sync) ---- *)
+Inductive dispatch_decision := DTargetless | DNotFound | DInternal | DExternal (tgt : nat).
+Definition has_target (t : trans) : bool := match t_target t with TNone => false | _ => true end.
+Definition resolved_target (t : trans) : option nat := match t_target t with TState g => Some g | _ => None end.
